@@ -380,7 +380,7 @@ func runC05(c *mon.Ctx) {
 		})
 	}
 	// ---- special scalars at every position, dense and short vectors ----
-	nd := c.Pick(32, 320)
+	nd := c.Pick(32, 1000)
 	for b := 0; b < nd; b++ {
 		if !c.Mine(b) {
 			continue
